@@ -93,4 +93,51 @@ def quiet : Ev → Bool
   | .tick _ | .mark | .unmark | .nominate | .node _ => true
   | _ => false
 
+/-! ## Commands and recorded scheduling results (c07.commands)
+
+The log is extended by what the property text calls "recently nominated for pending pods" and "already deleting" at
+the level where they are DECIDED, not where they are cached:
+
+* a scheduling result that was recorded and places at least one real pending pod on the node IS a nomination of the
+  node at that instant — whatever else the result contains (new NodeClaims or not);
+* a disruption command that was accepted for the node makes it "already deleting" until the command is known to have
+  failed; a command that was carried out has requested the deletion of the node's NodeClaim, so the node stays
+  "already deleting" — whether or not the cluster state has seen the deletionTimestamp yet — until the NodeClaim
+  object is replaced or gone.
+
+`did` is what the implementation reports it did with the event (started / succeeded / failed …). -/
+
+structure QLog where
+  log : Log
+  queued : Bool := false            -- a command naming the node is in the orchestration queue
+  cmdOn : Bool := false             -- … and it was accepted for the node as the log knows it (not an earlier incarnation)
+  deleteRequested : Bool := false   -- a command was carried out: the deletion of the NodeClaim the log holds was requested
+deriving Repr, DecidableEq
+
+def qspecStep (pool : Pool) (l : QLog) (e : QEv) (did : String) : QLog :=
+  match e with
+  | .base b =>
+    let log' := specStep pool l.log b
+    let l1 : QLog := { l with log := log' }
+    let l2 : QLog := if l.log.tracked && !log'.tracked then { l1 with cmdOn := false, deleteRequested := false } else l1
+    (match b with
+     | .claim _ => { l2 with deleteRequested := false }
+     | _ => l2)
+  | .record real _ _ => if 0 < real then { l with log := specStep pool l.log .nominate } else l
+  | .start _ =>
+    if did == "started" then { l with log := specStep pool l.log .mark, queued := true, cmdOn := l.log.tracked } else l
+  | .queue _ =>
+    if did == "succeeded" then
+      { l with queued := false, cmdOn := false, deleteRequested := l.deleteRequested || (l.cmdOn && l.log.claim.isSome) }
+    else if did == "failed" then
+      { l with queued := false, cmdOn := false, log := specStep pool l.log .unmark }
+    else l
+  | .sync =>
+    if l.deleteRequested then { l with log := { l.log with claim := l.log.claim.map (fun c => { c with deleting := true }) } }
+    else l
+
+/-- the property after a history of commands: method `m` may select the node -/
+def allowedAfterQ (env : World) (l : QLog) (m : Method) : Bool :=
+  allowedAfter env l.log m && !l.queued && !l.deleteRequested
+
 end Karp.Spec.ProtectedHistory
